@@ -9,6 +9,7 @@ table makes lake re-check only the shards that read it (in parallel):
 | `C17DefsTypes`, `C17TypesLemmas` | `XlsxTypes`, `ProfileTypes`, `ProfileStrs` (profile_gen.go rows) |
 | `C17StrLemmas` | `ProfileStrs`, `ProfileTypes`, `ProfileTables` (base-type sizes) |
 | `C17DefsUntyped`, `C17UntypedLemmas`, `C17UntypedNodupLemmas`, `C17MesgnumLemmas` | `Untyped`, `Xlsx` / `XlsxTypes` |
+| `C17BytesLemmas` | `GenDigest` (generator re-run), `TreeDigest` (checked-in `*_gen.go` of the whole tree) |
 -/
 namespace Fit.C17
 open Fit.ProfileSpec
@@ -18,6 +19,27 @@ example : f14.map (fun p => (unpack p.1, unpack p.2)) =
     [("cadence_zone_high_bondary".toUTF8.toList.map UInt8.toNat, "cadence_zone_high_boundary".toUTF8.toList.map UInt8.toNat),
      ("connect_iq_app_managment".toUTF8.toList.map UInt8.toNat, "connect_iq_app_management".toUTF8.toList.map UInt8.toNat),
      ("degrees_farenheit".toUTF8.toList.map UInt8.toNat, "degrees_fahrenheit".toUTF8.toList.map UInt8.toNat)] := by
+  decide +kernel
+
+/-- the packed numbers of `Fit.ProfileSpec.r7Dropped` (the complete list of what reading rule R7 drops) are these texts -/
+example : r7Dropped.map (fun p => (unpack p.1, unpack p.2.1, p.2.2)) =
+    [("weather_report".toUTF8.toList.map UInt8.toNat, "forecast".toUTF8.toList.map UInt8.toNat, 1)] := by
+  decide +kernel
+
+/-- The generator of C17, as the first line of its output names it. -/
+def fitgenProgram : Nat := 0x1696e7465726e616c2f636d642f66697467656e2f6d61696e2e676f
+
+/-- **The `*_gen.go` files of the tree that are NOT output of internal/cmd/fitgen**, the complete list: (path, the other
+`go generate` program its first line names). Both are derived from the COMPILED profile packages, not from Profile.xlsx
+(`lookup_gen.go` is tied by C19). Any other `*_gen.go` anywhere in the tree that the generator does not emit breaks `C17_bytes`. -/
+def otherGenerators : List (Nat × Nat) := [
+  (0x1636d642f6669747072696e742f7072696e7465722f747970656465665f67656e2e676f, 0x1636d642f666974636f6e762f6669747072696e742f747970656465662e676f),
+  (0x1636d642f666974636f6e762f6669746373762f6c6f6f6b75705f67656e2e676f, 0x1636d642f666974636f6e762f6669746373762f6c6f6f6b75702e676f)]
+
+example : otherGenerators.map (fun p => (unpack p.1, unpack p.2)) =
+    [("cmd/fitprint/printer/typedef_gen.go".toUTF8.toList.map UInt8.toNat, "cmd/fitconv/fitprint/typedef.go".toUTF8.toList.map UInt8.toNat),
+     ("cmd/fitconv/fitcsv/lookup_gen.go".toUTF8.toList.map UInt8.toNat, "cmd/fitconv/fitcsv/lookup.go".toUTF8.toList.map UInt8.toNat)] ∧
+    unpack fitgenProgram = "internal/cmd/fitgen/main.go".toUTF8.toList.map UInt8.toNat := by
   decide +kernel
 
 end Fit.C17
